@@ -139,90 +139,114 @@ Theorem hash_triangular_complete_refuted :
 Proof. exists [false; false; true], 0. split; vm_compute; reflexivity. Qed.
 
 (* ---------- round robin ---------- *)
-Lemma rr_loop_nowrap av n : forall steps robin,
-  robin + N.of_nat steps < U32 ->
-  rr_loop av n robin steps =
-  (probe_seq av (map (fun i => N.to_nat ((robin + 1 + N.of_nat i) mod n)) (seq 0 steps)),
-   match probe_seq av (map (fun i => N.to_nat ((robin + 1 + N.of_nat i) mod n)) (seq 0 steps)) with
-   | None => robin + N.of_nat steps
-   | Some _ => snd (rr_loop av n robin steps) end).
+(* L consecutive slots from s on, modulo n *)
+Definition seg (n s : N) (L : nat) : list nat :=
+  map (fun i => N.to_nat ((s + N.of_nat i) mod n)) (seq 0 L).
+(* the first slot RoundRobin.Select probes: the counter advanced by one (uint32) and reduced *)
+Definition rr_start (n robin : N) : N := ((robin + 1) mod U32) mod n.
+
+Lemma seg_succ n s k : 0 < n ->
+  seg n s (S k) = N.to_nat (s mod n) :: seg n ((s + 1) mod n) k.
 Proof.
-  induction steps as [|k IH]; intros robin Hw.
-  - simpl. rewrite N.add_0_r. reflexivity.
-  - cbn [rr_loop]. rewrite (N.mod_small (robin + 1) U32) by lia.
-    cbn [seq map probe_seq]. rewrite N.add_0_r.
-    destruct (nth (N.to_nat ((robin + 1) mod n)) av false) eqn:E.
-    + reflexivity.
-    + rewrite IH by lia. rewrite <- seq_shift, map_map.
-      assert (Heq : map (fun i => N.to_nat ((robin + 1 + 1 + N.of_nat i) mod n)) (seq 0 k) =
-                    map (fun x => N.to_nat ((robin + 1 + N.of_nat (S x)) mod n)) (seq 0 k)).
-      { apply map_ext. intros a. f_equal. f_equal. lia. }
-      rewrite Heq.
-      destruct (probe_seq av _) eqn:P; [reflexivity|]. f_equal. lia.
+  intros Hn. unfold seg. cbn [seq map]. change (N.of_nat 0) with 0. rewrite N.add_0_r. f_equal.
+  rewrite <- seq_shift, map_map. apply map_ext. intros a.
+  rewrite N.add_mod_idemp_l by lia. do 2 f_equal. lia.
+Qed.
+
+Lemma rr_start_lt n robin : 0 < n -> rr_start n robin < n.
+Proof. intros Hn. unfold rr_start. apply N.mod_lt. lia. Qed.
+
+(* once the counter is below the pool length the uint32 addition cannot wrap any more *)
+Lemma rr_start_small n s : s < n -> n < U32 -> rr_start n s = (s + 1) mod n.
+Proof. intros Hs Hn. unfold rr_start. rewrite (N.mod_small (s + 1) U32) by lia. reflexivity. Qed.
+
+Lemma rr_loop_step av n robin k :
+  rr_loop av n robin (S k) =
+  if nth (N.to_nat (rr_start n robin)) av false
+  then (Some (N.to_nat (rr_start n robin)), rr_start n robin)
+  else rr_loop av n (rr_start n robin) k.
+Proof. reflexivity. Qed.
+
+(* EXACT probe order for EVERY counter value (the uint32 wrap included): the n slots
+   s, s+1, ..., s+n-1 (mod n) from s = ((robin + 1) mod 2^32) mod n on *)
+Lemma rr_loop_exact av n : 0 < n -> n < U32 -> forall steps robin,
+  fst (rr_loop av n robin steps) = probe_seq av (seg n (rr_start n robin) steps).
+Proof.
+  intros Hn Hu. induction steps as [|k IH]; intros robin; [reflexivity|].
+  rewrite rr_loop_step. pose proof (rr_start_lt n robin Hn) as Hs.
+  rewrite seg_succ by exact Hn. rewrite (N.mod_small _ _ Hs). cbn [probe_seq].
+  destruct (nth (N.to_nat (rr_start n robin)) av false); [reflexivity|].
+  rewrite IH. rewrite (rr_start_small n (rr_start n robin)) by assumption. reflexivity.
+Qed.
+
+Theorem rr_exact av robin :
+  N.of_nat (length av) < U32 ->
+  fst (rr_select av robin) =
+  probe_seq av (seg (N.of_nat (length av)) (rr_start (N.of_nat (length av)) robin) (length av)).
+Proof.
+  intros Hu. unfold rr_select. destruct av as [|a r]; [reflexivity|].
+  apply rr_loop_exact; [cbn [length]; lia|exact Hu].
 Qed.
 
 Theorem rr_sound av robin i : fst (rr_select av robin) = Some i -> nth i av false = true.
 Proof.
   unfold rr_select. generalize (N.of_nat (length av)) as n. generalize (length av) as steps.
-  intros steps n. revert robin. induction steps as [|k IH]; intros robin; cbn [rr_loop].
+  intros steps n. revert robin. induction steps as [|k IH]; intros robin.
   - discriminate.
-  - destruct (nth (N.to_nat (((robin + 1) mod U32) mod n)) av false) eqn:E.
+  - rewrite rr_loop_step. destruct (nth (N.to_nat (rr_start n robin)) av false) eqn:E.
     + cbn. intros H; injection H as <-. exact E.
     + apply IH.
 Qed.
 
-Theorem rr_complete_nowrap av robin :
-  robin + N.of_nat (length av) < U32 ->
+(* completeness for EVERY counter value: an available host exists => one is returned *)
+Theorem rr_complete av robin :
+  N.of_nat (length av) < U32 ->
   existsb (fun b => b) av = true -> fst (rr_select av robin) <> None.
 Proof.
-  intros Hw H. unfold rr_select. rewrite rr_loop_nowrap by exact Hw. cbn [fst].
+  intros Hu H. rewrite rr_exact by exact Hu.
   apply existsb_exists in H as (b & Hin & ->).
   apply In_nth with (d := false) in Hin as (j & Hj & Hn).
   apply probe_seq_complete with (j := j); [|exact Hn].
   apply lin_idxs_cover. exact Hj.
 Qed.
 
-(* all hosts up: the i-th selection is host (robin+1) mod n and the counter advances by one,
-   hence any n consecutive selections visit every host exactly once *)
+(* the counter is left on the slot that was chosen, so it stays below the pool length *)
 Theorem rr_all_up av robin :
-  (0 < length av)%nat -> robin + 1 < U32 -> forallb (fun b => b) av = true ->
-  rr_select av robin = (Some (N.to_nat ((robin + 1) mod N.of_nat (length av))), robin + 1).
+  (0 < length av)%nat -> forallb (fun b => b) av = true ->
+  rr_select av robin =
+  (Some (N.to_nat (rr_start (N.of_nat (length av)) robin)), rr_start (N.of_nat (length av)) robin).
 Proof.
-  intros Hn Hw Hall. unfold rr_select. destruct (length av) as [|k] eqn:E; [lia|].
-  cbn [rr_loop]. rewrite (N.mod_small (robin + 1) U32) by lia.
-  assert (Hlt : (N.to_nat ((robin + 1) mod N.of_nat (S k)) < length av)%nat).
-  { rewrite E. pose proof (N.mod_lt (robin + 1) (N.of_nat (S k)) ltac:(lia)). lia. }
+  intros Hn Hall. unfold rr_select. destruct (length av) as [|k] eqn:E; [lia|].
+  rewrite rr_loop_step.
+  assert (Hlt : (N.to_nat (rr_start (N.of_nat (S k)) robin) < length av)%nat).
+  { rewrite E. pose proof (rr_start_lt (N.of_nat (S k)) robin ltac:(lia)). lia. }
   rewrite forallb_forall in Hall.
   rewrite (Hall _ (nth_In av false Hlt)). reflexivity.
 Qed.
 
-Lemma rr_run_all_up av : forall m robin,
-  (0 < length av)%nat -> robin + N.of_nat m < U32 -> forallb (fun b => b) av = true ->
+(* all hosts up: m consecutive selections are m consecutive slots, for EVERY counter value *)
+Theorem rr_run_all_up av : forall m robin,
+  (0 < length av)%nat -> N.of_nat (length av) < U32 -> forallb (fun b => b) av = true ->
   rr_run av robin m =
-  map (fun i => Some (N.to_nat ((robin + 1 + N.of_nat i) mod N.of_nat (length av)))) (seq 0 m).
+  map Some (seg (N.of_nat (length av)) (rr_start (N.of_nat (length av)) robin) m).
 Proof.
-  induction m as [|k IH]; intros robin Hn Hw Hall; [reflexivity|].
-  cbn [rr_run]. rewrite rr_all_up by (auto; lia).
-  rewrite IH by (auto; lia). cbn [seq map]. rewrite N.add_0_r. f_equal.
-  rewrite <- seq_shift, map_map. apply map_ext. intros a. do 3 f_equal. lia.
+  induction m as [|k IH]; intros robin Hn Hu Hall; [reflexivity|].
+  cbn [rr_run]. rewrite rr_all_up by auto. rewrite IH by auto.
+  pose proof (rr_start_lt (N.of_nat (length av)) robin ltac:(lia)) as Hs.
+  rewrite seg_succ by lia. rewrite (N.mod_small _ _ Hs).
+  rewrite (rr_start_small _ _ Hs Hu). reflexivity.
 Qed.
 
+(* hence any n consecutive selections visit every host exactly once, also across the wrap *)
 Theorem rr_even av robin :
-  (0 < length av)%nat -> robin + N.of_nat (length av) < U32 -> forallb (fun b => b) av = true ->
+  (0 < length av)%nat -> N.of_nat (length av) < U32 -> forallb (fun b => b) av = true ->
   forall j, (j < length av)%nat -> In (Some j) (rr_run av robin (length av)) /\
   length (rr_run av robin (length av)) = length av.
 Proof.
-  intros Hn Hw Hall j Hj. rewrite rr_run_all_up by auto. split.
-  - pose proof (lin_idxs_cover (length av) (robin + 1) j Hj) as Hin.
-    apply in_map_iff in Hin as (i & Hi & Hs).
-    apply in_map_iff. exists i. split; [f_equal; exact Hi | exact Hs].
-  - rewrite map_length, seq_length. reflexivity.
+  intros Hn Hu Hall j Hj. rewrite rr_run_all_up by auto. split.
+  - apply in_map. apply lin_idxs_cover. exact Hj.
+  - unfold seg. rewrite !map_length, seq_length. reflexivity.
 Qed.
-
-(* at the uint32 wrap a pool whose size is not a power of two can be skipped over *)
-Theorem rr_complete_wrap_refuted :
-  exists av robin, existsb (fun b => b) av = true /\ fst (rr_select av robin) = None.
-Proof. exists [false; false; true], 4294967294. split; vm_compute; reflexivity. Qed.
 
 (* ---------- random ---------- *)
 Lemma reservoir_some cands : forall rs count cur,
@@ -519,15 +543,8 @@ Lemma hash_sel_complete h (st : N) av :
   existsb (fun b => b) av = true -> fst (static_select av (fun av => hash_select av h), st) <> None.
 Proof. intros H. cbn. apply static_complete; [apply hash_complete|exact H]. Qed.
 
-(* buffered bodies are rewound: every attempt sees the whole body *)
+(* bodies are buffered whenever the request can be retried, whatever the number of hosts, and
+   buffered bodies are rewound: every attempt sees the whole body *)
 Theorem attempt_body_complete {A} nhosts (body : list A) consumed :
-  (1 < nhosts)%nat -> attempt_body (buffered nhosts true) body consumed = body.
-Proof.
-  intros H. unfold buffered, attempt_body.
-  destruct (Nat.ltb_spec 1 nhosts); [reflexivity|lia].
-Qed.
-
-(* a single host pool is not buffered: an attempt after a partly consumed failed one is cut *)
-Theorem attempt_body_single_host_refuted :
-  exists (body : list N) consumed, attempt_body (buffered 1 true) body consumed <> body.
-Proof. exists [1;2;3], 2%nat. vm_compute. discriminate. Qed.
+  attempt_body (buffered nhosts true) body consumed = body.
+Proof. reflexivity. Qed.
